@@ -115,6 +115,23 @@ add("C19",
     "after every evolve - that part is a test, the theorem covers one phase and the summation. Axiom-free.",
     "Rocq/Coq proof (generic model, any optimizer oracle) + differential correspondence with an independent counter")
 
+add("C16",
+    "Coq model of the sympy printer (translated templates) and of the parser at character level (bad-substring test, the two "
+    "replaces, both unary-minus regex substitutions incl. the look-behind one, padding, split, lower), token classification "
+    "(float() as oracle), shunting-yard and command-array builder with the command dictionary. Theorems: for every printed tree "
+    "(any size, any nesting) the shunting-yard returns the postfix form of the tree with +/- chains re-associated to the left; "
+    "the builder returns a command array whose LAST row denotes exactly the postfix tree, constants being the literals in textual "
+    "order; the recovered tree means the printed tree in every algebra where a+(b+c)=(a+b)+c and a+(b-c)=(a+b)-c; "
+    "(character level, see DESIGN) the tokenizer maps the printed string to the printed tokens. With simplification the round "
+    "trip is REFUTED by a witness (known finding F3). Tie: tr_strings.py (templates, tables, pinned regex sources and tokenizer "
+    "statement order) + correspondence inside Coq: printer char by char, tokenizer and full parser on printed strings, strings "
+    "printed by sympy, character-level mutations and a malformed list; oracle: print -> AGraph(equation=) -> evaluate with and "
+    "without simplification, AGraph(equation=str(sympy expr)) vs sympy.lambdify.",
+    "Trusted: Coq kernel + vm_compute; str(float)/float() as oracles; ASCII model of \\s \\d \\w and str.lower; tr_strings.py; "
+    "float re-association of + chains is outside (tolerance 1e-9 in the oracle, stated as algebraic laws in the theorem). "
+    "F2 (-2**X_0) fixed in 79d7908; F3 (literals re-bound after simplification) is a known finding. Axiom-free.",
+    "Rocq/Coq proof (for all printed trees) + differential correspondence of printer/tokenizer/parser")
+
 add("C17",
     "PARTIAL. (a) Coq theorem: for every population, flag pattern, optimizer oracle and completion order, multi-process "
     "evaluation leaves the same genome, fitness and flag in every slot and reports the same count as serial evaluation; tied to "
